@@ -575,6 +575,12 @@ def asb_decode(btsd):
         params = rest.pop(0)
         if not (isinstance(params, list) and all(isinstance(p, list) and len(p) == 2 and _is_uint(p[0]) for p in params)):
             raise ValueError('ASB parameters')
+        for (pid, pval) in params:
+            # COSE context parameter types (draft-ietf-bpsec-cose): 3, 4 = bstr; 5 = map int -> uint
+            if pid in (3, 4) and not isinstance(pval, bytes):
+                raise ValueError('ASB parameter %d type' % pid)
+            if pid == 5 and not (isinstance(pval, dict) and all(isinstance(k, int) and not isinstance(k, bool) and _is_uint(v) for (k, v) in pval.items())):
+                raise ValueError('ASB parameter 5 type')
     if len(rest) != 1:
         raise ValueError('ASB length')
     results = rest[0]
